@@ -1319,6 +1319,47 @@ func AtomHelper(atom string) *ssa.Function {
 	return h
 }
 
+// AtomHelpers: AtomHelper plus the unexported repository functions whose results are handed to
+// it as arguments, transitively (`verdict.admissible()` with `_, _, verdict := examine(input)`:
+// what the verdict says was decided in examine).
+func AtomHelpers(atom string) []*ssa.Function {
+	h := AtomHelper(atom)
+	if h == nil {
+		return nil
+	}
+	out := []*ssa.Function{h}
+	seen := map[ssa.Value]bool{}
+	var walk func(v ssa.Value, depth int)
+	walk = func(v ssa.Value, depth int) {
+		if v == nil || seen[v] || depth > 6 {
+			return
+		}
+		seen[v] = true
+		c, _ := CallOf(Origin(v))
+		cc, isCall := c.(*ssa.Call)
+		if !isCall {
+			if phi, isPhi := Origin(v).(*ssa.Phi); isPhi {
+				for _, e := range phi.Edges {
+					walk(e, depth+1)
+				}
+			}
+			return
+		}
+		if f := Followable(cc, nil); f != nil && !exportedFunc(f) {
+			out = append(out, f)
+		}
+		for _, a := range cc.Call.Args {
+			walk(a, depth+1)
+		}
+	}
+	if c := AtomCall(atom); c != nil {
+		for _, a := range c.Common().Args {
+			walk(a, 0)
+		}
+	}
+	return out
+}
+
 // AtomCall returns the call whose result the atom tests (directly or compared with nil), or nil.
 func AtomCall(atom string) ssa.CallInstruction {
 	info, ok := atomReg[atom]
